@@ -268,7 +268,18 @@ func adversary(ln net.Listener, c Case, stop <-chan struct{}, wg *sync.WaitGroup
 		conn.SetDeadline(time.Unix(1, 0))
 	}()
 	drain := func() { io.Copy(io.Discard, conn) }
+	hold := func() { <-stop } // never reads: whatever the dialler writes stays in the kernel buffers
 	switch c.Server {
+	case "prompt-then-never-reads":
+		conn.SetReadBuffer(4096)
+		conn.Write([]byte("Callsign :\r"))
+		hold()
+	case "callsign-then-never-reads-password":
+		conn.Write([]byte("Callsign :\r"))
+		readLine(conn)
+		conn.SetReadBuffer(4096)
+		conn.Write([]byte("Password :\r"))
+		hold()
 	case "silent":
 		drain()
 	case "partial-prompt":
